@@ -1,3 +1,4 @@
+import Lm.Inst.CoreTie
 import Lm.Props.C02
 /-! # C19 — System notifications mirror loop and module transitions one-to-one
 
@@ -46,5 +47,11 @@ theorem C19_pause_notifies (m : ModId) (s : St) :
   simp only [runP_modify_bind, runP_getSt_bind, Bool.false_eq_true, if_false, pure_bind']
   have : (0 : Int) ≠ ENOENT := by decide
   simp [this]
+
+
+/-- tie A: the guard prefixes of the entry points this property is about, re-extracted from the source on every run,
+are the ones the model transcribes (`Lm.Inst.CoreTie`) -/
+theorem C19_guards_in_source :
+    Lm.Inst.CoreTie.slice Lm.Generated.CoreGuards.guards ["m_ctx_set_tick"] = Lm.Inst.CoreTie.slice Lm.Inst.CoreTie.expected ["m_ctx_set_tick"] := by decide
 
 end Lm.Props.C19
